@@ -31,7 +31,15 @@ structure ProcEng where
   -- runs that have been shut down, with the harvest they held at that moment: a tick of one of their timers that was already
   -- on its way (in the forwarder goroutine) still reaches `doHarvest` afterwards (op `latetrigger`)
   dead : List (String × RunM) := []
+  -- connect attempts per application: preconnect requests seen / preconnect replies given; and, fixed at the moment of a
+  -- terminal verdict, how many attempts were then still before their connect step (they may still take it)
+  preLaunched : List (String × Nat) := []
+  preAnswered : List (String × Nat) := []
+  allowance : List (String × Nat) := []
 deriving Inhabited
+
+def cntGet (l : List (String × Nat)) (k : String) : Nat := ((l.find? (·.1 == k)).map (·.2)).getD 0
+def cntSet (l : List (String × Nat)) (k : String) (v : Nat) : List (String × Nat) := (k, v) :: l.filter (·.1 != k)
 
 def natList (l : List Nat) : String := String.intercalate "," (l.map toString)
 
@@ -254,7 +262,13 @@ def checkImplReqs (st : ProcEng) (reqs : List ImplReq) : ProcEng × List String 
       match h with
       | none => (st, fails ++ ["C04 proc: a connect request carries a license no application has"])
       | some h =>
-        let f1 := if st.terminal.any (·.1 == h) then ["C03 lifecycle: a connect was attempted for an application that the collector disconnected for good (410) or whose license is invalid"] else []
+        -- "no connect is ever attempted again": no NEW attempt (preconnect) after the verdict; an attempt that was already
+        -- in flight when the verdict came may still take its connect step (its result is ignored: C03_stale_attempt_ignored)
+        let isTerm := st.terminal.any (·.1 == h)
+        let tolerated := isTerm && q.cmd == "connect" && cntGet st.allowance h > 0
+        let st := if tolerated then { st with allowance := cntSet st.allowance h (cntGet st.allowance h - 1) } else st
+        let st := if q.cmd == "preconnect" then { st with preLaunched := cntSet st.preLaunched h (cntGet st.preLaunched h + 1) } else st
+        let f1 := if isTerm && !tolerated then ["C03 lifecycle: a connect was attempted for an application that the collector disconnected for good (410) or whose license is invalid"] else []
         -- isolation: the container id in a connect request is the one this application's agents reported (or none)
         let own := ((st.defs.find? (·.1 == h)).map (fun d => if d.2.docker == "" then "-" else d.2.docker)).getD "-"
         let sent := match q.payload.splitOn ",docker=" with
@@ -448,8 +462,12 @@ def procStep (st0 : ProcEng) (t : Tokens) (impl : Option String) : ProcEng × St
   | none => (st, out)
   | some line =>
     -- bookkeeping that follows the ops
-    let st := if op == "init" then { st with evicted := [], noRetry := [], sends := [], runInfo := [], terminal := [], needConnect := [], lastAttempt := [], qOffered := [], qAcked := [], runRules := [], lossless := true, tainted := [] } else st
+    let st := if op == "init" then { st with evicted := [], noRetry := [], sends := [], runInfo := [], terminal := [], needConnect := [], lastAttempt := [], qOffered := [], qAcked := [], runRules := [], lossless := true, tainted := [], preLaunched := [], preAnswered := [], allowance := [] } else st
     let o : Outcome := parseOutcome (tokStr t 5)
+    let st := match picked with
+      | some r => if r.cat == .preconnect then { st with preAnswered := cntSet st.preAnswered r.app (cntGet st.preAnswered r.app + 1) } else st
+      | none => st
+    let stBefore := st
     let (st, f0) : ProcEng × List String := match picked with
       | none => (st, [])
       | some r =>
@@ -505,6 +523,10 @@ def procStep (st0 : ProcEng) (t : Tokens) (impl : Option String) : ProcEng × St
                 else if o == Outcome.status 401 || o == Outcome.status 409 then { st with needConnect := h :: st.needConnect }
                 else st
             (st, [])
+    -- an application that has just become terminal: the attempts still before their connect step are counted now
+    let st := st.terminal.foldl (fun (st : ProcEng) (t : String × String) =>
+      if stBefore.terminal.any (·.1 == t.1) then st
+      else { st with allowance := cntSet st.allowance t.1 (cntGet st.preLaunched t.1 - cntGet st.preAnswered t.1) }) st
     let reqs : List ImplReq := parseImplReqs line
     let (st, f1) := checkImplReqs st reqs
     -- lifecycle checks on agent queries
